@@ -62,7 +62,7 @@ func init() {
 	core.Register(&core.Prop{
 		ID:    "C17",
 		Level: "exploration",
-		Rule: "seeded charts packaged and signed by helm (action.Package --sign and Signatory.ClearSign) with OpenPGP RSA keys generated per worker; per chart: every byte position (stride-sampled in the quick tier) of archive, clear-signed headers+body and signature armor × {bit flip, byte replacement, insertion, deletion, truncation}; structural mutants (re-signed messages with swapped / extra / missing file entries, other signer, other hash, duplicated / prefixed blocks, CRLF, trailing blanks, header changes, second signature block); keyrings {signer, signer+others, others, empty, missing, secret ring, same user id other key}; renamed / moved archives; through Signatory.Verify and downloader.VerifyChart (all mutants) and action.Verify, LocateChart(Verify), DownloadTo(VerifyAlways/VerifyLater) (sampled + all structural). " +
+		Rule: "seeded charts packaged and signed by helm (action.Package --sign and Signatory.ClearSign) with OpenPGP RSA keys generated per worker; per chart: every byte position (stride-sampled to ~240 positions per part in the quick tier; thorough: all positions, all 8 bit flips at every 4th) of archive, clear-signed headers+body and signature armor × {bit flip, byte replacement, insertion, deletion, truncation}; structural mutants (re-signed messages with swapped / extra / missing file entries, other signer, other hash, duplicated / prefixed blocks, CRLF, trailing blanks, header changes, second signature block); keyrings {signer, signer+others, others, empty, missing, secret ring, same user id other key}; renamed / moved archives; through Signatory.Verify and downloader.VerifyChart (all mutants) and action.Verify, LocateChart(Verify), DownloadTo(VerifyAlways/VerifyLater) (sampled + all structural). " +
 			"distinct_nontrivial counts (part, mutation kind, expected outcome, entry point) tuples.",
 		Assumptions: []string{
 			"golang.org/x/crypto/openpgp (clearsign.Decode, CheckDetachedSignature, armor) is the trusted definition of 'valid signature by a key in the keyring'",
@@ -79,9 +79,9 @@ func init() {
 var groups = []string{"archive", "body", "armor", "structural"}
 
 func genCases(seed int64, tier string) []core.Case {
-	n := 24
+	n := 16
 	if tier == "thorough" {
-		n = 96
+		n = 48
 	}
 	rng := rand.New(rand.NewSource(seed*15485863 + 17))
 	var out []core.Case
@@ -631,12 +631,12 @@ func run(cs core.Case, verbose bool) core.Result {
 	}
 	switch d.Group {
 	case "archive":
-		st := stride(len(w.archive), 300)
+		st := stride(len(w.archive), 240)
 		off := rng.Intn(st)
 		for pos := off; pos < len(w.archive); pos += st {
 			for _, kind := range kinds {
 				bits := []int{rng.Intn(8)}
-				if kind == "bitflip" && d.Tier == "thorough" {
+				if kind == "bitflip" && d.Tier == "thorough" && pos%4 == 0 {
 					bits = []int{0, 1, 2, 3, 4, 5, 6, 7}
 				}
 				for _, bit := range bits {
@@ -686,7 +686,7 @@ func run(cs core.Case, verbose bool) core.Result {
 			lo, hi, part = sigStart, len(w.prov), "armor"
 		}
 		hdrEnd := bytes.Index(w.prov, []byte("\n\n")) + 2
-		st := stride(hi-lo, 300)
+		st := stride(hi-lo, 240)
 		off := rng.Intn(st)
 		for pos := lo + off; pos < hi; pos += st {
 			p := part
@@ -695,7 +695,7 @@ func run(cs core.Case, verbose bool) core.Result {
 			}
 			for _, kind := range kinds {
 				bits := []int{rng.Intn(8)}
-				if kind == "bitflip" && d.Tier == "thorough" {
+				if kind == "bitflip" && d.Tier == "thorough" && pos%4 == 0 {
 					bits = []int{0, 1, 2, 3, 4, 5, 6, 7}
 				}
 				for _, bit := range bits {
